@@ -1,14 +1,27 @@
 /-
 C14 — partitions tile their domain: cells, nodes, indices and slices stay consistent.
 Property theorems only.  The model (`Model/Partition.lean`) follows
-`odl/discr/partition.py`, `grid.py`, `set/domain.py`, `util/normalize.py` and is tied to
-/repo on every run by the correspondence check (`tools/harness/c14.py`).
-`Valid P` (Lemmas/Partition.lean) = what the real constructors accept: `n ≥ 1`, nodes strictly
-increasing, `lo ≤ c 0`, `c (n-1) ≤ hi`.  `Nondegenerate P` = `n ≥ 2 ∨ lo < hi`.
+`odl/discr/partition.py`, `grid.py`, `set/domain.py`, `util/normalize.py` statement by
+statement and is tied to /repo on every run by the correspondence check
+(`tools/harness/c14.py`).
+
+Vocabulary (Lemmas/Partition.lean):
+`Valid P`         what the real constructors accept: `n ≥ 1`, nodes strictly increasing,
+                  `lo ≤ c 0`, `c (n-1) ≤ hi`  (`P.wf = true ↔ Valid P`);
+`Nondegenerate P` `n ≥ 2 ∨ lo < hi` (excludes only the one-point partition of a one-point set);
+`subPart P s e st` nodes `c s, c (s+st), …` below `e`, limits `bdry s`, `bdry e`;
+`sumTo f n`       `f 0 + … + f (n-1)`.
+All statements are for every number of nodes `n`, every coordinate vector and all rationals
+(hence every finite float); nothing is bounded.
 -/
 import OdlModel.Lemmas.Partition
 
 open OdlModel.Partition
+
+/-- The executable constructor check accepts exactly the `Valid` states (so the hypotheses of
+the theorems below are the states the code can be in). -/
+theorem C14.wf_iff_valid (P : Part1) : P.wf = true ↔ Valid P :=
+  ⟨valid_of_wf P, wf_of_valid P⟩
 
 /-- The cell boundary vector starts at `min_pt` and ends at `max_pt` exactly. -/
 theorem C14.bdry_ends (P : Part1) (h : 1 ≤ P.n) : P.bdry 0 = P.lo ∧ P.bdry P.n = P.hi :=
@@ -18,50 +31,13 @@ theorem C14.bdry_ends (P : Part1) (h : 1 ≤ P.n) : P.bdry 0 = P.lo ∧ P.bdry P
 coordinate vector and every placement of the limits (excluding only the one-point partition
 of a one-point set, whose single cell is a point). -/
 theorem C14.bdry_strict_mono (P : Part1) (hv : Valid P) (hn : Nondegenerate P) (k : Nat)
-    (hk : k < P.n) : P.bdry k < P.bdry (k + 1) := by
-  rcases Nat.eq_zero_or_pos k with rfl | hk0
-  · rw [bdry_zero P hv.pos]
-    rcases Nat.lt_or_ge 1 P.n with h | h
-    · rw [bdry_succ_mid P 0 h]
-      have := hv.mono 0 h
-      have := hv.lo_le
-      linarith
-    · rw [bdry_ge P 1 h]
-      rcases hn with h2 | h2
-      · omega
-      · exact h2
-  · rw [bdry_mid P k hk0 hk]
-    have e : k - 1 + 1 = k := by omega
-    have h1 := hv.mono (k - 1) (by omega)
-    rw [e] at h1
-    rcases Nat.lt_or_ge (k + 1) P.n with h | h
-    · rw [bdry_succ_mid P k h]
-      have := hv.mono k h
-      linarith
-    · rw [bdry_ge P (k + 1) h]
-      have : k = P.n - 1 := by omega
-      have := hv.le_hi
-      subst k
-      linarith
+    (hk : k < P.n) : P.bdry k < P.bdry (k + 1) :=
+  bdry_lt_succ P hv hn k hk
 
 /-- Every grid point lies in its own cell: `bdry[i] ≤ c[i] ≤ bdry[i+1]`, all sizes. -/
 theorem C14.node_in_own_cell (P : Part1) (hv : Valid P) (i : Nat) (hi : i < P.n) :
-    P.bdry i ≤ P.c i ∧ P.c i ≤ P.bdry (i + 1) := by
-  constructor
-  · rcases Nat.eq_zero_or_pos i with rfl | h0
-    · rw [bdry_zero P hv.pos]; exact hv.lo_le
-    · rw [bdry_mid P i h0 hi]
-      have e : i - 1 + 1 = i := by omega
-      have h1 := hv.mono (i - 1) (by omega)
-      rw [e] at h1
-      linarith
-  · rcases Nat.lt_or_ge (i + 1) P.n with h | h
-    · rw [bdry_succ_mid P i h]
-      have := hv.mono i h
-      linarith
-    · rw [bdry_ge P (i + 1) h]
-      have : i = P.n - 1 := by omega
-      subst this; exact hv.le_hi
+    P.bdry i ≤ P.c i ∧ P.c i ≤ P.bdry (i + 1) :=
+  ⟨node_ge_bdry P hv i hi, node_le_bdry P hv i hi⟩
 
 /-- Non-vacuity: a non-uniform 3-point partition of `[-1, 4]` is a valid state. -/
 example : Valid ⟨3, fun i => i * i, -1, 4⟩ ∧ Nondegenerate ⟨3, fun i => i * i, -1, 4⟩ := by
@@ -70,3 +46,216 @@ example : Valid ⟨3, fun i => i * i, -1, 4⟩ ∧ Nondegenerate ⟨3, fun i => 
   have hi' : i + 1 < 3 := hi
   have : i = 0 ∨ i = 1 := by omega
   rcases this with rfl | rfl <;> norm_num
+
+/-- `cell_sizes_vecs[i]` is the width of cell `i` (difference of its boundaries), for every
+partition with at least two nodes.  (No validity needed: pure index arithmetic.) -/
+theorem C14.cell_size_is_width (P : Part1) (hn : 2 ≤ P.n) (i : Nat) (hi : i < P.n) :
+    P.cellSize i = P.bdry (i + 1) - P.bdry i :=
+  cell_size_eq_bdry_diff P hn i hi
+
+/- FULL STATEMENT (does not hold for the code, see `C14.cell_sizes_sum_fails_len1`):
+   `∀ P, Valid P → sumTo P.cellSize P.n = P.hi - P.lo`.
+   Missing: the length-1 axis, where `cell_sizes_vecs` is `[0.0]` by construction. -/
+/-- Cell sizes sum to the extent `max_pt - min_pt` (telescoping), for every `n ≥ 2`. -/
+theorem C14.cell_sizes_sum_partial (P : Part1) (hn : 2 ≤ P.n) :
+    sumTo P.cellSize P.n = P.hi - P.lo :=
+  cell_sizes_sum_of_two_le P hn
+
+/-- Finding C14-F2 on the model: a valid one-node partition of `[0, 1]` whose cell sizes do not
+sum to the extent (`cell_sizes_vecs = [0.0]`, extent `1`). -/
+theorem C14.cell_sizes_sum_fails_len1 :
+    ∃ P : Part1, Valid P ∧ P.n = 1 ∧ sumTo P.cellSize P.n ≠ P.hi - P.lo :=
+  OdlModel.Partition.cell_sizes_sum_fails_len1
+
+example : sumTo (Part1.ofList [0, 1, 3] (-1/2) 4).cellSize 3 = 4 - (-1/2) :=
+  C14.cell_sizes_sum_partial (Part1.ofList [0, 1, 3] (-1/2) 4) (by decide)
+
+/-- Boundary cell fractions: the part of the first/last "natural" cell (centred at the node,
+as wide as the neighbouring stride) that lies inside the set is `1/2 + distance / stride`:
+`1/2` when the node is on the boundary, `1` when the limit is half a stride away. -/
+theorem C14.bdry_fraction_formula (P : Part1) (hv : Valid P) (hn : 2 ≤ P.n) :
+    (P.bdryFrac.1 - 1 / 2) * (P.c 1 - P.c 0) = P.c 0 - P.lo ∧
+    (P.bdryFrac.2 - 1 / 2) * (P.c (P.n - 1) - P.c (P.n - 2)) = P.hi - P.c (P.n - 1) ∧
+    (P.c 0 = P.lo → P.bdryFrac.1 = 1 / 2) ∧ (P.c (P.n - 1) = P.hi → P.bdryFrac.2 = 1 / 2) := by
+  have h1 := hv.mono 0 (by omega)
+  have h2 := hv.mono (P.n - 2) (by omega)
+  have e : P.n - 2 + 1 = P.n - 1 := by omega
+  rw [e] at h2
+  have d1 : P.c 1 - P.c 0 ≠ 0 := by simp at h1 ⊢; linarith
+  have d2 : P.c (P.n - 1) - P.c (P.n - 2) ≠ 0 := by linarith
+  unfold Part1.bdryFrac
+  rw [if_neg (by omega)]
+  refine ⟨?_, ?_, ?_, ?_⟩
+  · simp only []; field_simp; ring
+  · simp only []; field_simp; ring
+  · intro h; simp only [h, sub_self, zero_div, add_zero]
+  · intro h; simp only [h, sub_self, zero_div, add_zero]
+
+/-- `uniform_partition_fromintv` / `uniform_grid_fromintv` place node `i` at
+`lo + (i + [¬bdry_l]/2) * h` with `h = (hi - lo) / (n - (bl + br)/2)`, for all four flag
+combinations and every `n ≥ 2`. -/
+theorem C14.uniform_node_placement (lo hi : Rat) (n : Nat) (hn : 2 ≤ n) (bl br : Bool) (i : Nat) :
+    (uniformAxis lo hi n bl br).c i =
+      lo + ((i : Rat) + (if bl then 0 else 1 / 2)) * ((hi - lo) / ((n : Rat) - halfCount bl br)) :=
+  uniform_nodes lo hi n hn bl br i
+
+/-- Uniform partitions: `cell_sides * (n - (bl + br)/2) = max_pt - min_pt` for all four
+nodes-on-boundary combinations and every `n ≥ 2`; the partition is a valid state, and the
+flags detected by `nodes_on_bdry_byaxis` are the requested ones. -/
+theorem C14.uniform_side_times_count (lo hi : Rat) (hlh : lo < hi) (n : Nat) (hn : 2 ≤ n)
+    (bl br : Bool) :
+    Valid (uniformAxis lo hi n bl br) ∧
+    ∃ h, (uniformAxis lo hi n bl br).cellSide Tol.exact = some h ∧
+      h * ((n : Rat) - halfCount bl br) = hi - lo ∧
+      (uniformAxis lo hi n bl br).nodesOnBdry Tol.exact = (bl, br) := by
+  refine ⟨uniform_valid lo hi hlh n (by omega) bl br, _, uniform_cellSide lo hi hlh n hn bl br, ?_,
+    uniform_nodesOnBdry lo hi hlh n hn bl br⟩
+  have := halfCount_lt bl br n hn
+  field_simp
+
+/-- One-node uniform axes are valid for every flag combination too (the node sits at `lo`,
+`hi` or the midpoint). -/
+theorem C14.uniform_valid (lo hi : Rat) (hlh : lo < hi) (n : Nat) (hn : 1 ≤ n) (bl br : Bool) :
+    Valid (uniformAxis lo hi n bl br) :=
+  OdlModel.Partition.uniform_valid lo hi hlh n hn bl br
+
+example : (uniformAxis 0 (7/4) 4 true false).cellSide Tol.exact = some (1/2) := by
+  rw [uniform_cellSide 0 (7/4) (by norm_num) 4 (by decide) true false]
+  norm_num [halfCount]
+
+/-- `index(p)`: for every valid non-degenerate partition and every point of the set the
+returned cell `k` contains `p` (`bdry k ≤ p < bdry (k+1)`, the last cell closed on the right),
+and the floating index is `k + (p - bdry k) / (bdry (k+1) - bdry k)`.
+`np.searchsorted` enters through its specification `searchLeft`. -/
+theorem C14.index_correct (P : Part1) (hv : Valid P) (hn : Nondegenerate P) (v : Rat)
+    (h1 : P.lo ≤ v) (h2 : v ≤ P.hi) :
+    ∃ k : Nat, P.index v = some (k : Int) ∧ k < P.n ∧ P.bdry k ≤ v ∧
+      (v < P.bdry (k + 1) ∨ (k + 1 = P.n ∧ v = P.hi)) ∧
+      P.indexFloat v = some ((k : Rat) + (v - P.bdry k) / (P.bdry (k + 1) - P.bdry k)) :=
+  index_spec P hv (bdry_lt_succ P hv hn) v h1 h2
+
+/-- Points outside the set are rejected. -/
+theorem C14.index_outside (P : Part1) (v : Rat) (h : v < P.lo ∨ P.hi < v) :
+    P.index v = none ∧ P.indexFloat v = none := by
+  unfold Part1.index Part1.indexFloat
+  rw [if_pos h, if_pos h]; exact ⟨rfl, rfl⟩
+
+/-- `partition[s:e:st]` (`0 ≤ s < e ≤ n`, step `st ≥ 1`, also `st` omitted): the result is a
+valid partition with the selected nodes `c s, c (s+st), …` whose limits are the outer
+boundaries `bdry s`, `bdry e` of the unit-step range (the documented behaviour: the step
+thins the nodes, not the hull). -/
+theorem C14.getitem_slice (P : Part1) (hv : Valid P) (s e st : Nat) (hse : s < e) (hen : e ≤ P.n)
+    (hst : 1 ≤ st) :
+    P.getSlice (some (s : Int)) (some (e : Int)) (some (st : Int)) = some (subPart P s e st) ∧
+    (st = 1 → P.getSlice (some (s : Int)) (some (e : Int)) none = some (subPart P s e 1)) ∧
+    Valid (subPart P s e st) :=
+  ⟨getSlice_core P hv s e st hse hen hst _ rfl,
+   fun _ => getSlice_core P hv s e 1 hse hen (le_refl _) none rfl,
+   sub_valid P hv s e st hse hen hst⟩
+
+/-- Unit-step slices: the cells of `partition[s:e]` are exactly the cells `s … e-1` of the
+original — same number, same nodes, same boundaries (all of them, inner and outer). -/
+theorem C14.getitem_cells (P : Part1) (hv : Valid P) (s e : Nat) (hse : s < e) (hen : e ≤ P.n) :
+    ∃ Q, P.getSlice (some (s : Int)) (some (e : Int)) none = some Q ∧ Valid Q ∧ Q.n = e - s ∧
+      (∀ i, Q.c i = P.c (s + i)) ∧ ∀ k, k ≤ e - s → Q.bdry k = P.bdry (s + k) := by
+  refine ⟨subPart P s e 1, getSlice_core P hv s e 1 hse hen (le_refl _) none rfl,
+    sub_valid P hv s e 1 hse hen (le_refl _), ?_, ?_, sub_bdry P s e hse hen⟩
+  · simp [subPart]; omega
+  · intro i; simp [subPart]
+
+/-- Integer indices: `partition[k]` is cell `k` (`[bdry k, bdry (k+1)]` with node `c k`), and
+`partition[k - n] = partition[k]` for `0 ≤ k < n` (negative indices count from the end). -/
+theorem C14.getitem_int (P : Part1) (hv : Valid P) (k : Nat) (hk : k < P.n) :
+    P.getInt (k : Int) = some (subPart P k (k + 1) 1) ∧
+    P.getInt ((k : Int) - P.n) = P.getInt (k : Int) ∧
+    (subPart P k (k + 1) 1).n = 1 ∧ (subPart P k (k + 1) 1).c 0 = P.c k ∧
+    (subPart P k (k + 1) 1).lo = P.bdry k ∧ (subPart P k (k + 1) 1).hi = P.bdry (k + 1) := by
+  refine ⟨getInt_nat P hv k hk, getInt_neg P k hk, ?_, ?_, rfl, rfl⟩ <;> simp [subPart]
+
+example : ∃ Q, (⟨4, fun i => i * i, -1/2, 10⟩ : Part1).getSlice (some 1) (some 3) none = some Q ∧
+    Q.n = 2 ∧ Q.bdry 0 = 1 / 2 ∧ Q.bdry 2 = 13 / 2 := by
+  have hv : Valid ⟨4, fun i => i * i, -1/2, 10⟩ := by
+    refine ⟨by decide, ?_, by norm_num, by norm_num⟩
+    intro i hi
+    have hi' : i + 1 < 4 := hi
+    have : i = 0 ∨ i = 1 ∨ i = 2 := by omega
+    rcases this with rfl | rfl | rfl <;> norm_num
+  obtain ⟨Q, h, _, hn, _, hb⟩ := C14.getitem_cells _ hv 1 3 (by decide) (by decide)
+  refine ⟨Q, h, hn, ?_, ?_⟩
+  · rw [hb 0 (by decide)]; norm_num [Part1.bdry]
+  · rw [hb 2 (by decide)]; norm_num [Part1.bdry]
+
+/-- `insert(index, p1, …, pk)` puts the axes of the inserted partitions, in order, as one block
+before axis `index` and leaves all axes (their cells) unchanged; negative `index` counts from
+`ndim`; `append` inserts at the end. -/
+theorem C14.insert_append_cells (P : Part) (parts : List Part) (i : Nat) (hi : i ≤ P.length) :
+    OdlModel.Partition.insert P (i : Int) parts = some (P.take i ++ parts.flatten ++ P.drop i) ∧
+        OdlModel.Partition.insert P ((i : Int) - P.length) parts =
+      (if i = P.length then some (parts.flatten ++ P) else some (P.take i ++ parts.flatten ++ P.drop i)) ∧
+    OdlModel.Partition.append P parts = some (P ++ parts.flatten) := by
+  refine ⟨?_, ?_, ?_⟩
+  · unfold OdlModel.Partition.insert
+    simp only []
+    rw [if_neg (by omega), if_neg (by omega), Int.toNat_natCast, insertAt_block P i hi]
+  · unfold OdlModel.Partition.insert
+    simp only []
+    rw [if_neg (by omega)]
+    split_ifs with h1 h2 h2
+    · omega
+    · have : ((i : Int) - P.length + P.length).toNat = i := by omega
+      rw [this, insertAt_block P i hi]
+    · have : ((i : Int) - P.length).toNat = 0 := by omega
+      rw [this, insertAt_block P 0 (by omega)]; simp
+    · omega
+  · unfold OdlModel.Partition.append OdlModel.Partition.insert
+    simp only []
+    rw [if_neg (by omega), if_neg (by omega), Int.toNat_natCast, insertAt_block P _ (le_refl _)]
+    simp
+
+/-- The different ways of specifying a uniform axis agree: whenever `min`, `max`, `n`,
+`cell_sides` and the per-side flags are consistent (`(n - (bl+br)/2) * side = max - min`),
+giving any three of them — or all four — completes to the same `(min, max, n)`, hence (the
+same `uniform_partition_fromintv` call follows) to the same partition.  Holds for the NumPy
+tolerances and for exact comparison alike. -/
+theorem C14.uniform_spec_agree (t : Tol) (eps : Rat) (ht1 : 0 ≤ t.atol) (ht2 : 0 ≤ t.rtol)
+    (he : 0 ≤ eps) (lo hi d : Rat) (n : Int) (bl br : Bool) (hd : d ≠ 0)
+    (hcons : ((n : Rat) - halfCount bl br) * d = hi - lo) :
+    completeAxis t eps (some lo) (some hi) (some n) none bl br = some (lo, hi, n) ∧
+    completeAxis t eps (some lo) none (some n) (some d) bl br = some (lo, hi, n) ∧
+    completeAxis t eps none (some hi) (some n) (some d) bl br = some (lo, hi, n) ∧
+    completeAxis t eps (some lo) (some hi) none (some d) bl br = some (lo, hi, n) ∧
+    completeAxis t eps (some lo) (some hi) (some n) (some d) bl br = some (lo, hi, n) :=
+  completeAxis_agree t eps ht1 ht2 he lo hi d n bl br hd hcons
+
+example : completeAxis Tol.numpy (1/100000) (some 0) none (some 4) (some (1/2)) true false =
+    some (0, 7/4, 4) :=
+  (C14.uniform_spec_agree Tol.numpy (1/100000) (by norm_num [Tol.numpy]) (by norm_num [Tol.numpy])
+    (by norm_num) 0 (7/4) (1/2) 4 true false (by norm_num) (by norm_num [halfCount])).2.1
+
+/- FULL STATEMENT of "the ways of specifying a uniform partition agree" at the level of
+   `uniformPartition` would quantify over every way of passing `nodes_on_bdry`
+   (`Flags.global`, `Flags.perAxis`, `Flags.flat`).  It holds for `global` and `perAxis`
+   (`loopFlags = gridFlags`, next theorem) and fails for `flat` (finding C14-F1). -/
+/-- For the global and the per-axis forms of `nodes_on_bdry` the parameter-completion loop and
+the grid construction see the same flags. -/
+theorem C14.uniform_flags_agree_partial (f : Flags) (ndim : Nat)
+    (hf : ∀ l r, f ≠ Flags.flat l r) : f.loopFlags ndim true = f.gridFlags ndim := by
+  cases f with
+  | global b => rfl
+  | flat l r => exact absurd rfl (hf l r)
+  | perAxis fl => rfl
+
+/-- Finding C14-F1 on the model: with the 1-d flat form `nodes_on_bdry=(l, r)`, `l ≠ r`, the
+completion loop uses `(l, l)` while the grid is built with `(l, r)`; the completed upper limit
+differs from the consistent one by half a cell for every `n` and every side `d ≠ 0`. -/
+theorem C14.uniform_flat_flags_fails (l r : Bool) (hlr : l ≠ r) (lo d : Rat) (n : Int) (hd : d ≠ 0) :
+    (Flags.flat l r).loopFlags 1 true = some [(l, l)] ∧
+    (Flags.flat l r).gridFlags 1 = some [(l, r)] ∧
+    ∀ t eps, completeAxis t eps (some lo) none (some n) (some d) l l ≠
+             completeAxis t eps (some lo) none (some n) (some d) l r := by
+  refine ⟨rfl, rfl, ?_⟩
+  intro t eps h
+  simp only [completeAxis, Option.some.injEq, Prod.mk.injEq, true_and, and_true] at h
+  have : halfCount l l * d = halfCount l r * d := by linarith
+  have h2 : halfCount l l = halfCount l r := mul_right_cancel₀ hd this
+  cases l <;> cases r <;> simp [halfCount] at h2 hlr
